@@ -141,6 +141,21 @@ def nontrivial(tab):
     return not (all(r == 0 for r in rows) or all(r == full for r in rows))
 
 
+def mostly_trivial(rng, count):
+    """Few objects, 9..40 properties of which only 2..4 (at random positions, also high ones) are neither full nor empty;
+    likewise transposed: the interesting members sit at high bit positions among many constant ones."""
+    for _ in range(count):
+        n, m = rng.randint(2, 5), rng.randint(9, 40)
+        cols = [rng.choice((0, (1 << n) - 1)) for _ in range(m)]
+        for j in rng.sample(range(m), rng.randint(2, 4)) + [m - 1][:rng.randint(0, 1)]:
+            cols[j] = rng.randint(1, (1 << n) - 2)
+        rows = [sum(((cols[j] >> i) & 1) << j for j in range(m)) for i in range(n)]
+        if rng.random() < .3:
+            yield (m, n, cols)          # transposed: many constant rows, few objects' worth of columns
+        else:
+            yield (n, m, rows)
+
+
 def suite(rng, tier, *, exh_quick=10, exh_thorough=14, rand_quick=400, rand_thorough=15000,
           wide_quick=40, wide_thorough=1000, nmax=9, mmax=9):
     """The shared stream of contexts for lattice-level properties."""
@@ -151,4 +166,5 @@ def suite(rng, tier, *, exh_quick=10, exh_thorough=14, rand_quick=400, rand_thor
     yield from exhaustive(exh)
     yield from structured(rng, 5 if tier == 'quick' else 7)
     yield from stratified(rng, rand_quick if tier == 'quick' else rand_thorough, nmax, mmax)
+    yield from mostly_trivial(rng, 40 if tier == 'quick' else 600)
     yield from wide(rng, wide_quick if tier == 'quick' else wide_thorough)
